@@ -789,7 +789,24 @@ def r6_manager(ctx):
     m = ctx.model
     f = m.method('BaseManager', 'is_connected')
     construct = 'BaseManager.is_connected'
-    run = run_function(f, m, raiser=lambda e: None)
+    # the manager's own one-line lookup accessors are looked through, so
+    # that `self.eio_sid_from_sid(sid, ns) is not None` is read as the
+    # membership test it is
+    from ..sym import new_helper_resolver
+    base_res = new_helper_resolver(f, m)
+
+    def resolver(call):
+        t = base_res(call)
+        if t is not None:
+            return t
+        fn = call.func
+        if isinstance(fn, ast.Attribute) and U(fn.value) == 'self' and \
+                fn.attr in ('eio_sid_from_sid', 'sid_from_eio_sid'):
+            g = m.lookup(m.cls('BaseManager'), fn.attr)
+            if g is not None and len(list(ast.walk(g.node))) < 200:
+                return g.node
+        return None
+    run = run_function(f, m, raiser=lambda e: None, inline_resolver=resolver)
     sid, ns = f.params[1:3]
     n_pending = 0
     for p in run.paths:
@@ -812,11 +829,15 @@ def r6_manager(ctx):
                       'disconnecting is reported as %s' % txt(p.value),
                       where=where(f))
         if p.exit == 'return' and p.value is not None and \
-                not is_const(p.value, False):
+                not is_const(p.value, False) and \
+                U(run.expand(p.value)) not in ('None is not None',
+                                               'False'):
             # a possibly-true answer must have consulted pending first
-            notpend = [c for c in p.conds if 'pending_disconnect' in c.text]
+            notpend = [c for c in p.conds if 'pending_disconnect' in c.text
+                       or 'pending_disconnect' in U(run.expand(c.atom))]
             ctx.check(bool(notpend) and 'self.rooms[%s][None]' % ns in
-                      U(p.value), construct, 'a true answer requires '
+                      U(run.expand(p.value)), construct,
+                      'a true answer requires '
                       'membership in rooms[ns][None] and follows the '
                       'pending test', key='true-answer',
                       reason='is_connected can answer %s without consulting '
